@@ -473,7 +473,9 @@ func init() {
 		return tr(8*k, x).FillBytes(make([]byte, k))
 	}
 	register(&opDef{name: "int.twos", weight: 5, gen: genIUn,
-		impl: func(c *tcase) (string, string) { return okBytes(mkInt(c.args[0], ai(c, 1)).TwosComplementBytesBE()), "" },
+		impl: func(c *tcase) (string, string) {
+			return okBytes(mkInt(c.args[0], ai(c, 1)).TwosComplementBytesBE()), ""
+		},
 		orac: func(c *tcase) string {
 			ax := ai(c, 1)
 			return okBytes(twos(intIn(ax, c.args[0]), (ax+1+7)/8))
